@@ -163,9 +163,10 @@ impl CompiledProgram {
             .map_err(|e| e.to_string())?;
         let simplicity_witness = named::to_witness_node(&self.simplicity, witness_values);
         let simplicity_redeem = match env {
-            Some(env) => simplicity_witness
-                .finalize_pruned(env)
-                .and_then(|pruned| named::retype_redeem_node(&pruned)),
+            Some(env) => simplicity_witness.finalize_unpruned().and_then(|unpruned| {
+                let pruned = unpruned.prune(env).map_err(simplicity::Error::Execution)?;
+                named::retype_redeem_node(&unpruned, &pruned)
+            }),
             None => simplicity_witness.finalize_unpruned(),
         };
         Ok(SatisfiedProgram {
